@@ -133,6 +133,14 @@ def _cli_zids(ix: IX.Index, where_text: str):
 
 
 def _run_case(ctx, case) -> F.Outcome:
+    if case[0] == "session":
+        # link filters answered twice in ONE long-lived `zorg edit` process, the index changing in between
+        from mc.checks import sessions
+
+        try:
+            return sessions.run_case(ctx, case, {"queries"})
+        finally:
+            H.freeze(DAY)
     name, where, via_cli = case
     ix = _get_index(name)
     H.freeze(DAY)
@@ -245,10 +253,17 @@ def _cases(ctx):
         for mask in (0b000001, 0b101010, 0b111111, 0b010101):
             for a in A:
                 cases.append([f"POOL{mask}", [[a]], False])
+    from mc.checks import sessions
+
+    cases += [c for c in sessions.cases(ctx) if any(p.endswith(".zoq") for p in sessions.SCENARIOS[c[1]][0])]
     return cases
 
 
 def _sample(case):
+    if case[0] == "session":
+        from mc.checks import sessions
+
+        return sessions.sample(case)
     return {"index": case[0], "query": "W " + Q.render_or(case[1]), "via_cli": case[2]}
 
 
@@ -257,7 +272,7 @@ def run(ctx: F.Ctx):
     cases = _cases(ctx)
     # build every index once, in the parent; workers inherit them and open
     # their own sessions
-    for name in sorted({c[0] for c in cases}):
+    for name in sorted({c[0] for c in cases if c[0] != "session"}):
         _get_index(name)
     try:
         rep = F.explore(ctx, cases, lambda c: _run_case(ctx, c), sample=_sample, day=DAY,
